@@ -17,6 +17,10 @@ CHECKS.update({
  'C06': ('bounded symbolic execution of the real InspectWrapper over stub inspectors with symbolic fault/complete/match bits per inspector and chunk, symbolic chunk sizes and uninterpreted contents',
          'All fault schedules inside the bound (m stubs x j chunks) are covered by forking on symbolic bits; stream contents are uninterpreted, sizes symbolic.'),
 })
+CHECKS.update({
+ 'C13': ('inductive step over the real StopWatch methods from an arbitrary invariant-satisfying pre-state with symbolic IEEE-double clock readings (z3 FloatingPoint), compared bit-for-bit with a reference transition relation',
+         'One call of each operation from an arbitrary pre-state (covers sequences of any length if the invariant is right; the invariant is listed in the evidence). Clock readings finite, |t| <= 1e150. The clause "recorded split values are non-decreasing" additionally needs monotonicity of IEEE subtraction, which neither z3 nor cvc5 decides at binary64 (outside the claim).'),
+})
 NA = {
 }
 def main():
